@@ -34,6 +34,7 @@ CONSTANTS NW,          \* threads_max
           MemT,        \* memlimit_threading (abstract units)
           Gives,       \* set of input amounts the application may add per call (model checking)
           Spaces,      \* set of output space grants per call
+          EarlyTailError, \* BOOLEAN: see RunTailEarlyError (TRUE only for trace validation)
           MaxReinit,   \* how often the application may re-initialise the handle without lzma_end()
           CountCalls   \* BOOLEAN: count lzma_code calls (history variable for bounding; FALSE for liveness checking)
 
@@ -296,7 +297,15 @@ RunOther ==
          [] m.seq = "ERROR" ->
               IF FailFast THEN Ret(m, PendingCode) ELSE StartRW(m, "ERROR", FALSE, TRUE)
 
-Run == RunOther \/ DirectRun
+\* Trace validation only: a damaged Index / Stream Footer is reported as soon as the damaged byte has been seen,
+\* which can be before the whole tail has arrived (the model otherwise treats the tail as one unit)
+RunTailEarlyError ==
+    /\ EarlyTailError /\ ~TailOk
+    /\ m.pc = "run" /\ m.seq = "IDX" /\ m.inAvail > 0
+    /\ m' = Ret([m EXCEPT !.progress = TRUE], "DATA_ERROR")
+    /\ UNCHANGED <<c, t>>
+
+Run == RunOther \/ DirectRun \/ RunTailEarlyError
 
 \* SEQ_BLOCK_THR_INIT after read_output_and_wait said the Block can start.
 \* coder.mutex sections of stream_decode_mt (memory accounting) and get_thread (pop the free stack)
